@@ -46,10 +46,10 @@ LOCAL Sch(r) == [sch |-> TRUE] @@ r
 LOCAL Ty(t) == [sch |-> TRUE, type |-> t]
 Seeds == {
   Sch([properties |-> << <<"a", Sch([default |-> JInt(1)])>>, <<"class", Ty("string")>> >>,
-       patternProperties |-> << <<"^a", Ty("integer")>> >>,
+       patternProperties |-> << <<"^a", Ty("integer")>>, <<"^c", Empty>> >>,
        additionalProperties |-> FalseS]),
   Sch([type |-> "object", title |-> "T",
-       properties |-> << <<"a", Ty("integer")>>, <<"b", Sch([default |-> JStr("x")])>> >>,
+       properties |-> << <<"a", Ty("integer")>>, <<"b", Sch([default |-> JStr("")])>> >>,
        required |-> <<"a", "b">>]),
   Sch([itemsT |-> << Ty("integer"), Ty("string") >>, additionalItems |-> FalseS,
        contains |-> Sch([const |-> JInt(1)])]),
@@ -94,6 +94,7 @@ Export ==
       m04 == IF ok THEN {i \in Idx : ~R_C04(doc, Values[i], calls[i].kind, calls[i].out)} ELSE {}
       m05 == IF ok THEN {i \in Idx : ~R_C05_obj(doc, Values[i], calls[i].kind, calls[i].out, dobs)}
              ELSE {}
+      m05w == IF ok THEN {i \in Idx : ~R_C05_waive(doc, Values[i], calls[i].kind)} ELSE {}
       m05np == ok /\ ~R_C05_np(doc, edef, np, dconv)
       m10 == IF ok THEN {i \in Idx : ~R_C10_call(calls[i].kind)} ELSE {}
       pk == IF ok THEN "ok" ELSE e.name
@@ -104,7 +105,7 @@ Export ==
                     strip |-> st, stripParse |-> IF IsErr(se) THEN se.name ELSE "ok",
                     allowed |-> allowed, calls |-> calls, np |-> np, dobs |-> dobs,
                     dconv |-> dconv, edef |-> edef,
-                    m01 |-> m01, m04 |-> m04, m05 |-> m05, m05np |-> m05np, m10 |-> m10,
+                    m01 |-> m01, m04 |-> m04, m05 |-> m05, m05w |-> m05w, m05np |-> m05np, m10 |-> m10,
                     m20 |-> ~R_C20(doc, pk) \/ IsErr(se)]))
 Inv == Export
 =============================================================================
